@@ -237,7 +237,7 @@ func TestC08_Save(t *testing.T) {
 				kws = append(kws, flagValue(t, "kw"))
 			}
 			if rapid.IntRange(0, 7).Draw(t, "comma-keyword") == 0 {
-				kws = append(kws, flagValue(t, "kw-a")+","+flagValue(t, "kw-b")) // one keyword with a comma inside
+				kws = append(kws, flagValue(t, "kw-a")+rapid.SampledFrom([]string{",", ",", ", ", ", ", " , "}).Draw(t, "kw-comma")+flagValue(t, "kw-b")) // one keyword with a comma inside
 			}
 			plats := []string{}
 			for i := rapid.IntRange(0, 2).Draw(t, "npl"); i > 0; i-- {
@@ -272,14 +272,18 @@ func TestC08_Save(t *testing.T) {
 						case 6:
 							// the same keyword (or platform) text, divided differently: two values become ONE value
 							// with a comma inside (passed CSV-quoted), or the other way round
+							// (the dividing text: a bare comma, or a comma with blanks around it - the way lists are printed)
+							sep := rapid.SampledFrom([]string{",", ", ", ", ", " , ", "; "}).Draw(t, "resplit-at")
 							if len(kws) >= 2 {
-								kws = []string{strings.Join(kws, ",")}
+								kws = []string{strings.Join(kws, sep)}
+							} else if len(kws) == 1 && strings.Contains(kws[0], sep) {
+								kws = strings.Split(kws[0], sep)
 							} else if len(kws) == 1 && strings.Contains(kws[0], ",") {
 								kws = strings.Split(kws[0], ",")
 							} else if len(plats) >= 2 {
-								plats = []string{strings.Join(plats, ",")}
+								plats = []string{strings.Join(plats, sep)}
 							} else {
-								kws = append(kws, "one,two")
+								kws = append(kws, "one"+sep+"two")
 							}
 						case 0:
 							desc += " v2"
